@@ -96,9 +96,11 @@ static void obs_block(int kind /* 'N' or 'X' */, int s, int b, int e) {
 		A(T_BEH, !((seenN[s] >> (b * 2 + e)) & 1), PROP_BEH ": onentry block executed twice");
 		seenN[s] |= (unsigned char)(1 << (b * 2 + e)); at_key(T_BEH, KEY_N(s, 1 + b * 2 + e));
 	} else {
-		A(T_BEH, (X.kind == 2 && RHAS(X.st.exited, s)) || (X.kind == 3 && RHAS(X.fin_exit, s)), PROP_BEH ": onexit handler of a state the reference does not exit");
-		A(T_BEH, !((seenX[s] >> (b * 2 + e)) & 1), PROP_BEH ": onexit block executed twice");
-		seenX[s] |= (unsigned char)(1 << (b * 2 + e)); at_key(T_BEH, KEY_X(s, 1 + b * 2 + e));
+		/* in the finalising step (kind 3) these are also the life-cycle clause of C10: every remaining onexit once, reverse document order */
+		int tg = T_BEH | (X.kind == 3 ? T_LIFE : 0);
+		A(tg, (X.kind == 2 && RHAS(X.st.exited, s)) || (X.kind == 3 && RHAS(X.fin_exit, s)), PROP_BEH ": onexit handler of a state the reference does not exit");
+		A(tg, !((seenX[s] >> (b * 2 + e)) & 1), PROP_BEH ": onexit block executed twice");
+		seenX[s] |= (unsigned char)(1 << (b * 2 + e)); at_key(tg, KEY_X(s, 1 + b * 2 + e));
 	}
 }
 static void obs_trans_content(int t, int e) {
@@ -131,7 +133,7 @@ static void compare_actions(void) {
 		if ((X.kind == 1 || X.kind == 2) && RHAS(X.st.entered, s)) for (int b = 0; b < CH_n_onentry[s] && b < 2; b++) { expN |= (unsigned char)(1 << (b * 2)); if (ELEMS > 1 && !in_failN[s][b]) expN |= (unsigned char)(1 << (b * 2 + 1)); }
 		if ((X.kind == 2 && RHAS(X.st.exited, s)) || (X.kind == 3 && RHAS(X.fin_exit, s))) for (int b = 0; b < CH_n_onexit[s] && b < 2; b++) { expX |= (unsigned char)(1 << (b * 2)); if (ELEMS > 1 && !in_failX[s][b]) expX |= (unsigned char)(1 << (b * 2 + 1)); }
 		A(T_BEH | T_ERR, seenN[s] == expN, PROP_BEH "/C07: exactly the onentry blocks of the entered states ran (a failing element skips only the rest of its own block)");
-		A(T_BEH | T_ERR, seenX[s] == expX, PROP_BEH "/C07: exactly the onexit blocks of the exited states ran (a failing element skips only the rest of its own block)");
+		A(T_BEH | T_ERR | (X.kind == 3 ? T_LIFE : 0), seenX[s] == expX, PROP_BEH "/C07: exactly the onexit blocks of the exited states ran (a failing element skips only the rest of its own block)");
 		A(T_BEH, seenDone[s] == ((X.kind == 1 || X.kind == 2) ? X.st.done[s] : 0), PROP_BEH ": exactly the done.state events of the reference were raised");
 	}
 	for (int t = 0; t < R_NT; t++) {
